@@ -190,6 +190,8 @@ class Unit:
                 a, occ = _parse_anchor(rest, where)
                 section = []
                 lift.after.append((a, occ, section))
+            elif d == 'at-start':
+                section = lift.at_start
             elif d == 'at-end':
                 section = lift.at_end
             elif d == 'rewrite':
